@@ -168,5 +168,23 @@ func (w *World) structPool() []structResult {
 		ok3 = true
 	}
 	out = append(out, structResult{Name: "pool:results-closed-after-wait", OK: ok3})
+	// (4) worker drains the jobs channel: it returns only when the range over the channel ends
+	ok4, n4 := true, 0
+	var bad4 []string
+	for _, b := range worker.Blocks {
+		if worker.Recover != nil && b == worker.Recover {
+			continue
+		}
+		for _, ins := range b.Instrs {
+			if _, isRet := ins.(*ssa.Return); isRet {
+				n4++
+				if b.Comment != "rangechan.done" {
+					ok4 = false
+					bad4 = append(bad4, "return outside the end of the range over the jobs channel at "+w.prog.prog.Fset.Position(ins.Pos()).String())
+				}
+			}
+		}
+	}
+	out = append(out, structResult{Name: "pool:worker-drains-jobs", OK: ok4 && n4 > 0, Detail: strings.Join(bad4, "; ")})
 	return out
 }
